@@ -71,7 +71,7 @@ func writeFile(path, kind string, accounts map[string]string) error {
 
 func startBroker(kind, pwFile, configDir string, ws bool) (*broker.Broker, *auth.Auth, error) {
 	b, err := broker.Start(broker.Options{WS: ws, Cfg: func(c *config.Config) {
-		c.PluginOrder = []string{auth.Name}
+		c.PluginOrder = pluginOrder(auth.Name)
 		c.Plugins[auth.Name] = &auth.Config{PasswordFile: pwFile, Hash: kind}
 		c.ConfigDir = configDir
 	}})
@@ -720,6 +720,7 @@ func Run(r *monitor.Run) {
 		_ = i
 	}
 	relativePath(r)
+	r.Count("basic_auth_calls_through_a_second_plugin", atomic.LoadInt64(&gateCalls))
 	for i, k := range kinds {
 		lastAccountDeleted(r, k, 1+i%2)
 	}
